@@ -125,10 +125,14 @@ var gridMantissas = []uint32{0, 1, 0x7f, 0x80, 0xff, 0x100, 0x7fff, 0x8000, 0xff
 // the range verdict.
 func compactGrid(r *ev.Run) {
 	n := 0
+	var sw sweeper
 	for e := uint32(0); e < 256; e++ {
 		for _, m := range gridMantissas {
 			c := e<<24 | m
 			reportCompact(r, c, true)
+			if sub, _ := checkCompactValue(c, false); sw.ok(c) != (sub == "") {
+				r.Broken("sweep oracle and refpow oracle disagree on compact %#08x", c)
+			}
 			r.Eval(1)
 			r.Trace(1)
 			r.Nontrivial(fmt.Sprintf("compact/%08x", c))
@@ -263,39 +267,125 @@ func targetsCheck(r *ev.Run) {
 	r.Add("bigtocompact_targets", int64(cnt))
 }
 
+// sweeper is the allocation-free formulation of the per-compact oracle used by
+// the 2^32 sweep: the same SetCompact / GetCompact / GetBlockProof steps as
+// refpow, on scratch big.Ints.  Every disagreement is re-judged by the plain
+// refpow oracle (checkCompactValue) before it is reported, and the two
+// formulations are cross-checked on the whole quick grid.
+type sweeper struct {
+	want, tmp, not, den, q, rem big.Int
+	cur                         uint32
+}
+
+var bigOne = big.NewInt(1)
+
+func (s *sweeper) ok(c uint32) bool {
+	s.cur = c
+	n := blockchain.CompactToBig(c)
+	c2 := blockchain.BigToCompact(n)
+	w := blockchain.CalcWork(c)
+
+	// SetCompact
+	nSize := c >> 24
+	nWord := c & 0x007fffff
+	if nSize <= 3 {
+		nWord >>= 8 * (3 - nSize)
+	}
+	neg := nWord != 0 && c&0x00800000 != 0
+	ovf := nWord != 0 && (nSize > 34 || (nWord > 0xff && nSize > 33) || (nWord > 0xffff && nSize > 32))
+	if ovf {
+		return n.BitLen() > 256 && (n.Sign() < 0) == neg && w.Sign() == 0
+	}
+	s.want.SetUint64(uint64(nWord))
+	if nSize > 3 {
+		s.want.Lsh(&s.want, uint(8*(nSize-3)))
+	}
+	if n.CmpAbs(&s.want) != 0 || (n.Sign() < 0) != neg {
+		return false
+	}
+	// GetCompact
+	size := (s.want.BitLen() + 7) / 8
+	var comp uint64
+	if size <= 3 {
+		comp = s.want.Uint64() << (8 * uint(3-size))
+	} else {
+		s.tmp.Rsh(&s.want, uint(8*(size-3)))
+		comp = s.tmp.Uint64()
+	}
+	if comp&0x00800000 != 0 {
+		comp >>= 8
+		size++
+	}
+	comp |= uint64(size) << 24
+	if neg && comp&0x007fffff != 0 {
+		comp |= 0x00800000
+	}
+	if c2 != uint32(comp) {
+		return false
+	}
+	// GetBlockProof
+	if neg || s.want.Sign() == 0 {
+		return w.Sign() == 0
+	}
+	s.not.Xor(&s.want, refpow.Max256)
+	s.den.Add(&s.want, bigOne)
+	s.q.QuoRem(&s.not, &s.den, &s.rem)
+	s.q.Add(&s.q, bigOne)
+	return w.Sign() > 0 && w.Cmp(&s.q) == 0
+}
+
+// sweepRange runs the sweeper over [lo, lo+n); a panic inside btcd is reported
+// for the value being processed.
+func sweepRange(r *ev.Run, s *sweeper, lo uint32, n uint32) {
+	defer func() {
+		if p := recover(); p != nil {
+			reportCompact(r, s.cur, false)
+			if r.Violations() == 0 {
+				r.Broken("compact %#08x panicked in the sweep (%v) but not in the plain oracle", s.cur, p)
+			}
+		}
+	}()
+	for i := uint32(0); i < n; i++ {
+		c := lo + i
+		if !s.ok(c) {
+			if sub, _ := checkCompactValue(c, false); sub == "" {
+				r.Broken("sweep oracle and refpow oracle disagree on compact %#08x", c)
+			}
+			reportCompact(r, c, false)
+			if r.Violations() > 50 {
+				return
+			}
+		}
+	}
+}
+
 // sweepAll: all 2^32 compact values, 4096 shards of 2^20 in numeric order
 // (exponent ascending), conversions + work (no range verdict: it is a function
 // of the CompactToBig value which is compared for every input; the verdict
-// itself is enumerated on compactRangeGrid).
+// itself is enumerated on compactGrid / compactRangeGrid).
 func sweepAll(r *ev.Run) {
 	const shards = 4096
 	var done [shards]int32
 	var vals int64
-	ev.Par(shards, runtime.NumCPU(), func(s int) {
+	ev.Par(shards, runtime.NumCPU(), func(sh int) {
 		if r.Expired() || r.Violations() > 50 {
 			return
 		}
-		base := uint32(s) << 20
-		for i := uint32(0); i < 1<<20; i++ {
-			c := base | i
-			sub, _ := fastCheck(c)
-			if sub != "" {
-				reportCompact(r, c, false)
-				if r.Violations() > 50 {
-					break
-				}
-			}
+		var s sweeper
+		sweepRange(r, &s, uint32(sh)<<20, 1<<20)
+		if r.Violations() > 50 {
+			return
 		}
 		atomic.AddInt64(&vals, 1<<20)
-		done[s] = 1
+		done[sh] = 1
 	})
 	nd := 0
 	prefix := -1
-	for s := 0; s < shards; s++ {
-		if done[s] == 1 {
+	for sh := 0; sh < shards; sh++ {
+		if done[sh] == 1 {
 			nd++
 		} else if prefix < 0 {
-			prefix = s
+			prefix = sh
 		}
 	}
 	r.Eval(int(vals))
@@ -304,13 +394,6 @@ func sweepAll(r *ev.Run) {
 	r.Set("compact_sweep", map[string]interface{}{"shards_total": shards, "shards_done": nd, "shard_size": 1 << 20,
 		"complete": nd == shards})
 	if nd != shards {
-		if prefix < 0 {
-			prefix = shards
-		}
-		r.Cap(fmt.Sprintf("compact sweep stopped by the time box (or after >50 violations): %d of %d shards (2^20 values each) done; every compact value below %#08x was covered", nd, shards, uint32(prefix)<<20))
+		r.Cap(fmt.Sprintf("compact sweep stopped by the time box (or after >50 violations): %d of %d shards (2^20 values each) done; every compact value below %#08x was covered", nd, shards, uint64(prefix)<<20))
 	}
 }
-
-// fastCheck is checkCompactValue(c,false); kept as a separate name so the hot
-// loop is easy to find.
-func fastCheck(c uint32) (string, string) { return checkCompactValue(c, false) }
